@@ -8,8 +8,8 @@ CONSTANTS
  RouterPeriod = 3
  RouteTTL = 4
  Peers = {1, 2}
- MaxTime = 12
- MaxAtt = 4
+ MaxTime = 9
+ MaxAtt = 3
  RelayKnown = TRUE
  Exps <- E35
  Defect = "none"
